@@ -141,9 +141,10 @@ def run_level(ctx, rep):
             rep.violation("at_most_2n", "bads.py:_poll_step_", f"{len(cur['calls'])} points polled in one poll step (D={D}); {tag}", case)
         used = []
         u = np.array(e["u"])
+        tol = 1e-6 + (0.5 * e["sms"] / e["ms"] if t["hdr"]["opts"].get("force_poll_mesh") else 0.0)
         for c in cur["calls"]:
             off = (np.array(c["u"]) - u) / e["ms"]
-            idx = [i for i, b in enumerate(Bs) if np.allclose(off, b, rtol=0, atol=1e-6)]
+            idx = [i for i, b in enumerate(Bs) if np.allclose(off, b, rtol=0, atol=tol)]
             if not idx:
                 rep.violation("poll_point_form", "bads.py:_poll_step_", f"polled point is not incumbent + mesh_size * direction (offset/mesh = {off.tolist()}); {tag}", case)
                 break
